@@ -66,6 +66,8 @@ namespace sim
 		if (ec == asio::error::operation_aborted)
 			return;
 
+		m_accepting = false;
+
 		if (ec)
 		{
 			std::printf("http_proxy::on_accept: (%d) %s\n"
@@ -85,6 +87,8 @@ namespace sim
 
 	void http_proxy::on_read_request(error_code const& ec, size_t bytes_transferred) try
 	{
+		if (m_accepting) return;
+
 		if (ec)
 		{
 			std::printf("http_proxy::on_read_request: (%d) %s\n"
@@ -219,6 +223,8 @@ namespace sim
 	void http_proxy::on_domain_lookup(boost::system::error_code const& ec
 		, const asio::ip::tcp::resolver::results_type ips)
 	{
+		if (m_accepting) return;
+
 		if (ec || ips.empty())
 		{
 			m_connecting = false;
@@ -258,6 +264,7 @@ namespace sim
 
 	void http_proxy::on_connected(boost::system::error_code const& ec)
 	{
+		if (m_accepting) return;
 		m_connecting = false;
 
 		if (ec)
@@ -289,6 +296,7 @@ namespace sim
 	void http_proxy::on_server_write(error_code const& ec, size_t bytes_transferred)
 	{
 		m_writing_to_server = false;
+		if (m_accepting) return;
 		if (ec)
 		{
 			std::printf("http_proxy::on_server_write: (%d) %s\n"
@@ -309,6 +317,8 @@ namespace sim
 	void http_proxy::on_server_receive(boost::system::error_code const& ec
 		, std::size_t bytes_transferred)
 	{
+		if (m_accepting) return;
+
 		if (ec)
 		{
 			std::printf("http_proxy: error reading from server: (%d) %s\n"
@@ -324,6 +334,8 @@ namespace sim
 	void http_proxy::on_server_forward(error_code const& ec
 		, size_t)
 	{
+		if (m_accepting) return;
+
 		if (ec)
 		{
 			std::printf("http_proxy: error writing to client: (%d) %s\n"
@@ -345,10 +357,16 @@ namespace sim
 
 	void http_proxy::close_connection()
 	{
+		if (m_accepting) return;
+
 		m_num_client_in_bytes = 0;
 		m_num_server_out_bytes = 0;
 		m_num_in_bytes = 0;
 		m_connecting = false;
+		m_writing_to_server = false;
+
+		// a lookup still in progress belongs to the connection being closed
+		m_resolver.cancel();
 
 		error_code err;
 		m_client_connection.close(err);
@@ -364,6 +382,7 @@ namespace sim
 				, err.value(), err.message().c_str());
 		}
 
+		m_accepting = true;
 		if (m_close) return;
 
 		// now we can accept another connection
